@@ -249,6 +249,35 @@ def release_db():
     gc.collect()
 
 
+def raw_keys(world):
+    """the task ids present in the DB file, read without doit (a key no task owns is invisible to the per-task dump)"""
+    try:
+        if world.backend == 'dbm':
+            import dbm.dumb
+            if not os.path.exists(world.db + '.dir'):
+                return []
+            d = dbm.dumb.open(world.db, 'r')
+            try:
+                return sorted(k.decode('utf-8', 'replace') for k in d.keys())
+            finally:
+                d.close()
+        if world.backend == 'json':
+            if not os.path.exists(world.db):
+                return []
+            with open(world.db) as f:
+                return sorted(json.load(f).keys())
+        import sqlite3
+        if not os.path.exists(world.db):
+            return []
+        conn = sqlite3.connect(world.db)
+        try:
+            return sorted(r[0] for r in conn.execute('select task_id from doit').fetchall())
+        finally:
+            conn.close()
+    except Exception as ex:  # noqa
+        return ['exc:' + type(ex).__name__]
+
+
 def snapshot(world):
     """logical DB (backend API), non-DB files (digest, mtime), names of the DB files; `stat`: what the checkers see"""
     files, dbfiles, stat = {}, [], {}
@@ -272,7 +301,7 @@ def snapshot(world):
         db = world.dump()
     except Exception as ex:  # noqa
         db = ['exc', type(ex).__name__]
-    return {'files': files, 'dbfiles': dbfiles, 'db': db, 'stat': stat}
+    return {'files': files, 'dbfiles': dbfiles, 'db': db, 'stat': stat, 'keys': raw_keys(world)}
 
 
 def rec_absent(rec):
@@ -701,6 +730,10 @@ def compare_probe(case, i, pr, m, out, checks, check_tags):
                 out.count('frame:documented-removal-persisted' if all(ck[int(x[1:])] for x in changed) else 'frame:db-changed')
         elif db_ok and not a_ok:
             out.fails.append(dict(wit, clause='frame-db', note='DB unreadable after the command: %s' % (after['db'],)))
+        new_keys = [k for k in after.get('keys', []) if k not in before.get('keys', [])]
+        if new_keys:
+            out.fails.append(dict(wit, clause='frame-db', changed_records=new_keys,
+                                  note='keys created in the DB file: %s' % new_keys))
         # ---------------- (P) frame: files
         if after['files'] != before['files']:
             diff = sorted(set(after['files']) ^ set(before['files'])) + \
@@ -1006,6 +1039,7 @@ def process_batch(batch):
     statuslib.allow_children()
     st = common.WorkerStats()
     shrunk = 0
+    reported = 0
     for origin, case in batch:
         case = json.loads(json.dumps(case))
         case.pop('comment', None)
@@ -1032,26 +1066,38 @@ def process_batch(batch):
             st.divergence({'case': case_key(case), 'rendered': render(case), 'at_op': i, 'impl': impl, 'model': model,
                            'origin': origin}, 'correspondence M2 (history): ' + what)
         if o.fails:
-            # confirm on a second execution (a loaded machine can make a single doit invocation fail)
-            o2 = run_case(case)
-            confirmed = [f for f in o.fails if any(same_failure(f, g) for g in o2.fails)]
-            if len(confirmed) < len(o.fails):
-                st.count('flaky:not-reproduced', len(o.fails) - len(confirmed))
+            known_f = [f for f in o.fails if any(pred(f) for pred in SIGNATURES.values())]
+            fresh_f = [f for f in o.fails if f not in known_f]
             seen = []
-            for f in confirmed:
+            for f in known_f:
                 if any(same_failure(f, g) for g in seen):
                     continue
                 seen.append(f)
-                small, f2 = case, f
-                known = any(pred(f) for pred in SIGNATURES.values())
-                if shrunk < 3 and not known:
-                    shrunk += 1
-                    small, f2 = shrink_case(case, f)
-                elif known:
-                    small = dict(case, ops=case['ops'][:f['at_op'] + 1], probes=[[-1, {'cmds': [f['cmd']]}]])
-                w = dict(f2)
+                small = dict(case, ops=case['ops'][:f['at_op'] + 1], probes=[[-1, {'cmds': [f['cmd']]}]])
+                w = dict(f)
                 w.update({'case': case_key(small), 'rendered': render(small), 'origin': origin})
-                st.violation(w, 'monitor', describe(f2))
+                st.violation(w, 'monitor', describe(f))
+            if fresh_f and reported >= 3:
+                st.count('violations-beyond-the-first-3-of-this-worker (not confirmed / shrunk / reported)', len(fresh_f))
+            elif fresh_f:
+                # confirm on a second execution (a loaded machine can make a single doit invocation fail)
+                o2 = run_case(case)
+                confirmed = [f for f in fresh_f if any(same_failure(f, g) for g in o2.fails)]
+                if len(confirmed) < len(fresh_f):
+                    st.count('flaky:not-reproduced', len(fresh_f) - len(confirmed))
+                seen = []
+                for f in confirmed:
+                    if any(same_failure(f, g) for g in seen):
+                        continue
+                    seen.append(f)
+                    small, f2 = case, f
+                    if shrunk < 3:
+                        shrunk += 1
+                        small, f2 = shrink_case(case, f)
+                    w = dict(f2)
+                    w.update({'case': case_key(small), 'rendered': render(small), 'origin': origin})
+                    st.violation(w, 'monitor', describe(f2))
+                    reported += 1
         for dv in o.divs[:3]:
             w = dict(dv)
             w.update({'case': case_key(case), 'rendered': render(case), 'origin': origin})
@@ -1112,6 +1158,24 @@ def run(ctx):
 def search(ctx):
     ctx.seed_shift = 7919
     run(ctx)
+
+
+def generated_obligations(ctx):
+    """`List.STATUS_MAP` of the tree under test against `Intro.letter` (DESIGN §6.6): same letters, pairwise distinct"""
+    common.use_repo()
+    from doit.cmd_list import List
+    sm = dict(List.STATUS_MAP)
+    ctor = {'ignore': '.ignore', 'up-to-date': '.upToDate', 'run': '.run', 'error': '.error'}
+    lines = ['import DoitModel.Model.Intro', 'open DoitModel.Intro',
+             '-- regenerated from doit.cmd_list.List.STATUS_MAP = %r' % (sm,)]
+    conj = []
+    for k in sorted(ctor):
+        v = sm.get(k)
+        conj.append("letter %s = '%s'" % (ctor[k], v if isinstance(v, str) and len(v) == 1 and v.isalnum() else '?'))
+    lines.append('example : %s := by decide' % ' ∧ '.join(conj))
+    lines.append('example : (%d : Nat) = 4 := by decide' % len(sm))
+    lines.append("example : ([Shown.ignore, .upToDate, .run, .error].map letter).Nodup := by decide")
+    return '\n'.join(lines) + '\n', 3
 
 
 def replay(ctx, data):
